@@ -3,13 +3,27 @@
 For every configuration: the model-directed input stream (every code's lattice point and rounding
 breakpoint +-1,2 ulp, saturation edges, zeros / subnormals, +-(2^24-1) steps, random tensors), the
 real quantizer run eagerly on float32, the Lean model (`drivers/C01.lean`) on the same exact
-rationals, and exact-rational records for the clause oracles."""
+rationals, and exact-rational records for the clause oracles.
+
+Families (the first is the original lattice; the others were added in the strengthening round):
+  base        quantized_bits / quantized_linear / quantized_relu / quantized_tanh / quantized_sigmoid,
+              scalar or no alpha, default options
+  per-channel quantized_linear / quantized_bits with a constant alpha TENSOR (one entry per channel,
+              layouts [1,C] / [C] / [C,1] / nested list / tuple / tf.constant), all three reporters
+  relu-opts   quantized_relu x is_quantized_clip x relu_upper_bound (None, 0.0, on-grid below / at /
+              above the largest code, off-grid below / above) x leaky slope
+  modes       every quantizer that reads the module-level `_sigmoid` (quantized_sigmoid,
+              quantized_tanh, quantized_relu(use_sigmoid=1)) x mode at construction x mode at call
+  reassign    construct with a decoy configuration, assign the attributes afterwards, then call"""
 from fractions import Fraction as F
 import itertools
 
 import numpy as np
 
 from . import core
+
+
+MODES = ("hard", "smooth", "real")
 
 
 def ulps(x, ks=(-2, -1, 1, 2)):
@@ -43,7 +57,10 @@ def points(rng, step, lo, hi, n_random=24, extra=(), big=True):
   pts += list(rng.uniform(-1.5 * span, 1.5 * span, size=n_random).astype(np.float32))
   pts += list((rng.choice([-1, 1], size=n_random) *
                np.exp2(rng.uniform(-12, 4, size=n_random)) * step).astype(np.float32))
-  pts += [np.float32(e) for e in extra]
+  for e in extra:
+    b = np.float32(e)
+    pts.append(b)
+    pts += ulps(b)
   arr = np.array(pts, dtype=np.float32)
   arr = arr[np.isfinite(arr)]
   return arr
@@ -53,8 +70,18 @@ def fr(a):
   return [F(float(v)) for v in np.asarray(a, dtype=np.float64).ravel()]
 
 
+def flush(xs):
+  """TF's CPU kernels run with denormals-are-zero: a subnormal input IS zero to the real code"""
+  return np.where(np.abs(xs) < np.float32(1.17549435e-38), np.float32(0.0) * np.sign(xs), xs).astype(np.float32)
+
+
+def distinct(xs):
+  return np.unique(np.asarray(xs, dtype=np.float32).view(np.int32)).view(np.float32)  # keeps -0.0
+
+
 class Rec:
-  """one configuration: inputs, implementation outputs, model outputs (all exact rationals)"""
+  """one configuration (one channel of a per-channel one): inputs, implementation outputs, model
+  outputs (all exact rationals)"""
 
   def __init__(self, kind, label, cfg):
     self.kind, self.label, self.cfg = kind, label, cfg
@@ -63,8 +90,33 @@ class Rec:
     self.impl_min = self.impl_max = self.impl_range = None
     self.model_min = self.model_max = self.model_range = None
     self.q = None
+    self.call = None            # float32 vector -> float32 vector, through the real quantizer
     self.err = None
+    self.yx = None              # model outputs computed from the inputs under the call-time mode
+    self.range_flat = False     # per-channel: range() returned ONE list for all channels
+    self.range_unreachable = None
+    self.family = "base"
 
+  # flags that identify a site for known-finding matching
+  def flags(self):
+    c = self.cfg
+    out = {"kind": self.kind}
+    if self.family != "base":
+      out["family"] = self.family
+    if self.kind in ("qrelu", "qrelusig"):
+      ub = c.get("upper")
+      if ub is not None:
+        step, lo, hi, _ = lattice(self.kind, c)
+        out["upper_zero"] = bool(ub == 0)
+        out["upper_offgrid"] = bool((F(ub) / step).denominator != 1)
+        out["upper_below_top"] = bool(0 < F(ub) < hi * step)
+        out["qclip"] = bool(c.get("qclip", 1))
+    if c.get("route", "direct") != "direct":
+      out["route"] = c["route"]
+    return out
+
+
+# --------------------------------------------------------------------------- configurations
 
 def configs(tier, rng):
   """(kind, label, cfg dict, constructor kwargs) over the supported lattice"""
@@ -109,7 +161,164 @@ def configs(tier, rng):
   return out
 
 
-def build(kind, cfg):
+def _pick(rng, lst, n):
+  if len(lst) <= n:
+    return list(lst)
+  return [lst[j] for j in sorted(rng.choice(len(lst), size=n, replace=False).tolist())]
+
+
+PC_ALPHAS = [(0.5, 1.0, 2.0), (4.0, 0.25, 1.0), (1.0, 1.0, 1.0), (2.0, 0.5), (1.0, 2.0, 4.0, 0.5), (2.0,),
+             (0.25, 0.125, 0.5), (1.0, 8.0, 1.0, 0.5, 2.0, 4.0, 0.25)]
+
+
+def configs_extra(tier, rng):
+  """the families of the strengthening round; `rng` is a stream of its own, so the base sample of a
+  given seed is the one it always was"""
+  quick = tier == "quick"
+  out = []
+  # ---- per-channel constant scales: every layout a tensor alpha can have
+  pc = []
+  for b in range(1, 6):
+    for i in (-1, 0, 1, 2):
+      for kn, sym in itertools.product((0, 1), (0, 1)):
+        for al in PC_ALPHAS:
+          for layout in ("row", "vec", "col", "list", "tf", "r4"):
+            pc.append(("qlinear_pc", dict(bits=b, integer=i, symmetric=sym, keep_negative=kn,
+                                          alphas=list(al), layout=layout)))
+  # the cells where range() broadcasts [.., C] against n codes with C == n (bits=2: n = 3 or 4)
+  must = [c for c in pc if c[1]["bits"] == 2 and c[1]["keep_negative"] and c[1]["layout"] in ("row", "vec")
+          and len(c[1]["alphas"]) == (3 if c[1]["symmetric"] else 4) and c[1]["integer"] == 0]
+  out += _pick(rng, must, 4) + _pick(rng, pc, 56 if quick else 400)
+  pcb = []
+  for b in range(1, 6):
+    for i in (-1, 0, 1, 2):
+      for kn, sym in itertools.product((0, 1), (0, 1)):
+        if b - kn < 0:
+          continue
+        for al in PC_ALPHAS:
+          for layout in ("list", "tuple"):
+            pcb.append(("qbits_pc", dict(bits=b, integer=i, symmetric=sym, keep_negative=kn,
+                                         alphas=list(al), layout=layout)))
+  out += _pick(rng, pcb, 24 if quick else 160)
+  # ---- quantized_relu x is_quantized_clip x relu_upper_bound x leaky slope
+  ro = []
+  for b in range(2, 7):
+    for i in (-1, 0, 1, 2, 3):
+      for sl in (None, 1, 2):
+        nsb = b - (0 if sl is None else 1)
+        if sl is not None and sl > nsb:
+          continue
+        step = 2.0 ** (i - nsb)
+        top = (2 ** nsb - 1) * step
+        bounds = [("none", None), ("zero", 0.0), ("grid-below", 2 ** (nsb - 1) * step), ("grid-at", top),
+                  ("grid-above", top + step), ("pow2-above", 2.0 ** (i + 1)), ("six", 6.0 * 2.0 ** i),
+                  ("off-below", float(np.float32(top * 0.7 + step / 3))),
+                  ("off-above", float(np.float32(top + 0.3 * step)))]
+        for qc in (0, 1):
+          for bname, ub in bounds:
+            ro.append(("qrelu", dict(bits=b, integer=i, slope_log=sl, upper=ub, qclip=qc, bound=bname)))
+  # every (bound class, is_quantized_clip, leaky?) cell at least once, then a random fill
+  cells = {}
+  for c in ro:
+    cells.setdefault((c[1]["bound"], c[1]["qclip"], c[1]["slope_log"] is None), []).append(c)
+  for key in sorted(cells, key=str):
+    out += _pick(rng, cells[key], 2)
+  out += _pick(rng, ro, 40 if quick else 400)
+  # ---- the module-level `_sigmoid` switch: mode at construction x mode at call
+  md = []
+  for b in range(1, 9):
+    for sym in (0, 1):
+      for cm in MODES:
+        for m in MODES:
+          md.append(("qsigmoid", dict(bits=b, symmetric=sym, real=0, ctor_mode=cm, mode=m)))
+          md.append(("qtanh", dict(bits=b, symmetric=sym, real=0, ctor_mode=cm, mode=m)))
+  cells = {}
+  for c in md:
+    cells.setdefault((c[0], c[1]["ctor_mode"], c[1]["mode"]), []).append(c)
+  for key in sorted(cells):
+    out += _pick(rng, cells[key], 3 if quick else 12)
+  # use_real_* must NOT follow the switch
+  for kind in ("qsigmoid", "qtanh"):
+    for cm, m in (("hard", "smooth"), ("smooth", "real"), ("real", "hard")):
+      out.append((kind, dict(bits=int(rng.integers(2, 7)), symmetric=int(rng.integers(0, 2)), real=1,
+                             ctor_mode=cm, mode=m)))
+  rs = []
+  for b in range(2, 7):
+    for i in (-1, 0, 1, 2):
+      for sl in (None, 1, 2):
+        nsb = b - (0 if sl is None else 1)
+        if sl is not None and sl > nsb:
+          continue
+        for cm in MODES:
+          for m in MODES:
+            rs.append(("qrelusig", dict(bits=b, integer=i, slope_log=sl, ctor_mode=cm, mode=m)))
+  cells = {}
+  for c in rs:
+    cells.setdefault((c[1]["ctor_mode"], c[1]["mode"], c[1]["slope_log"] is None), []).append(c)
+  for key in sorted(cells, key=str):
+    out += _pick(rng, cells[key], 2 if quick else 8)
+  # use_sigmoid=1 with the upper-bound pass
+  for bname in ("grid-below", "grid-above", "zero"):
+    b, i = int(rng.integers(3, 6)), int(rng.integers(0, 3))
+    step = 2.0 ** (i - b)
+    ub = {"grid-below": 2 ** (b - 1) * step, "grid-above": 2 ** b * step, "zero": 0.0}[bname]
+    out.append(("qrelusig", dict(bits=b, integer=i, slope_log=None, ctor_mode="hard", mode="hard",
+                                 upper=ub, qclip=0, bound=bname)))
+  # ---- construct with a decoy configuration, assign the attributes afterwards, call
+  ra = []
+  for b in range(1, 7):
+    for i in (-1, 0, 2):
+      for kn, sym in itertools.product((0, 1), (0, 1)):
+        if b - kn < 0:
+          continue
+        ra.append(("qbits", dict(bits=b, integer=i, symmetric=sym, keep_negative=kn,
+                                 alpha=[None, 0.5, 2.0][(b + i) % 3], route="reassign")))
+        ra.append(("qlinear", dict(bits=b, integer=i, symmetric=sym, keep_negative=kn,
+                                   alpha=[None, 0.5, 2.0][(b + i) % 3], route="reassign")))
+      for sl in (None, 1):
+        if sl is not None and b < 2:
+          continue
+        ra.append(("qrelu", dict(bits=b, integer=i, slope_log=sl, route="reassign")))
+    for sym in (0, 1):
+      for real in (0, 1):
+        ra.append(("qtanh", dict(bits=b, symmetric=sym, real=real, route="reassign")))
+        ra.append(("qsigmoid", dict(bits=b, symmetric=sym, real=real, route="reassign")))
+  cells = {}
+  for c in ra:
+    cells.setdefault(c[0], []).append(c)
+  for key in sorted(cells):
+    out += _pick(rng, cells[key], 6 if quick else 40)
+  # quantized_linear: `alpha` assigned after construction (declared "modifyable"; the scale is stored once)
+  for ca, a in ((None, 2.0), (2.0, None), (0.5, 2.0), (1.0, None), (None, 0.25)):
+    out.append(("qlinear", dict(bits=int(rng.integers(2, 7)), integer=int(rng.integers(-1, 3)),
+                                symmetric=int(rng.integers(0, 2)), keep_negative=1, alpha=a, ctor_alpha=ca,
+                                has_ctor_alpha=1, route="reassign-alpha")))
+  return out
+
+
+# --------------------------------------------------------------------------- the real quantizers
+
+def _alpha_arg(cfg):
+  import tensorflow as tf
+  al, layout = cfg["alphas"], cfg["layout"]
+  if layout == "row":
+    return np.array([al], dtype=np.float32)
+  if layout == "vec":
+    return np.array(al, dtype=np.float32)
+  if layout == "col":
+    return np.array([[a] for a in al], dtype=np.float32)
+  if layout == "list":
+    return [list(al)]
+  if layout == "tuple":
+    return tuple(al)
+  if layout == "tf":
+    return tf.constant([al], dtype=tf.float32)
+  if layout == "r4":
+    return np.array(al, dtype=np.float32).reshape(1, 1, 1, -1)     # a conv kernel's per-channel scale
+  raise ValueError(layout)
+
+
+def _build_direct(kind, cfg):
   from qkeras import quantizers as Q
   if kind == "qbits":
     return Q.quantized_bits(cfg["bits"], cfg["integer"], cfg["symmetric"], keep_negative=cfg["keep_negative"],
@@ -117,15 +326,111 @@ def build(kind, cfg):
   if kind == "qlinear":
     return Q.quantized_linear(cfg["bits"], cfg["integer"], cfg["symmetric"], keep_negative=cfg["keep_negative"],
                               alpha=cfg["alpha"])
-  if kind == "qrelu":
+  if kind == "qbits_pc":
+    return Q.quantized_bits(cfg["bits"], cfg["integer"], cfg["symmetric"], keep_negative=cfg["keep_negative"],
+                            alpha=_alpha_arg(cfg))
+  if kind == "qlinear_pc":
+    return Q.quantized_linear(cfg["bits"], cfg["integer"], cfg["symmetric"], keep_negative=cfg["keep_negative"],
+                              alpha=_alpha_arg(cfg))
+  if kind in ("qrelu", "qrelusig"):
     sl = cfg["slope_log"]
-    return Q.quantized_relu(cfg["bits"], cfg["integer"], negative_slope=0.0 if sl is None else 2.0 ** -sl)
+    kw = {}
+    if "upper" in cfg:
+      kw["relu_upper_bound"] = cfg["upper"]
+    if "qclip" in cfg:
+      kw["is_quantized_clip"] = bool(cfg["qclip"])
+    return Q.quantized_relu(cfg["bits"], cfg["integer"], use_sigmoid=int(kind == "qrelusig"),
+                            negative_slope=0.0 if sl is None else 2.0 ** -sl, **kw)
   if kind == "qtanh":
     return Q.quantized_tanh(cfg["bits"], symmetric=cfg["symmetric"], use_real_tanh=cfg["real"])
   if kind == "qsigmoid":
     return Q.quantized_sigmoid(cfg["bits"], symmetric=cfg["symmetric"], use_real_sigmoid=cfg["real"])
   raise ValueError(kind)
 
+
+def _build_reassign(kind, cfg):
+  """a quantizer constructed with OTHER values; the attributes are assigned afterwards.  Anything the
+  constructor pre-computes from its arguments goes stale here."""
+  from qkeras import quantizers as Q
+  if kind == "qbits":
+    q = Q.quantized_bits(cfg["bits"] + 2, cfg["integer"] + 1, 1 - cfg["symmetric"],
+                         keep_negative=not cfg["keep_negative"], alpha=None if cfg["alpha"] else 4.0)
+    q.bits, q.integer, q.symmetric = cfg["bits"], cfg["integer"], cfg["symmetric"]
+    q.keep_negative, q.alpha = cfg["keep_negative"], cfg["alpha"]
+    return q
+  if kind == "qlinear":
+    # bits / integer / keep_negative are read-only properties; `symmetric` is documented as modifiable
+    # (`alpha` too, but quantization_scale is derived from it once: see notes, not exercised here)
+    q = Q.quantized_linear(cfg["bits"], cfg["integer"], 1 - cfg["symmetric"], keep_negative=cfg["keep_negative"],
+                           alpha=cfg["alpha"])
+    q.symmetric = cfg["symmetric"]
+    return q
+  if kind == "qrelu":
+    sl = cfg["slope_log"]
+    q = Q.quantized_relu(cfg["bits"] + 1, cfg["integer"] + 2, negative_slope=0.5 if sl is None else 0.0,
+                         relu_upper_bound=0.75, is_quantized_clip=False)
+    q.bits, q.integer = cfg["bits"], cfg["integer"]
+    q.negative_slope = 0.0 if sl is None else 2.0 ** -sl
+    q.relu_upper_bound, q.is_quantized_clip = None, True
+    return q
+  if kind == "qtanh":
+    q = Q.quantized_tanh(cfg["bits"] + 1, symmetric=1 - cfg["symmetric"], use_real_tanh=1 - cfg["real"])
+    q.bits, q.symmetric, q.use_real_tanh = cfg["bits"], cfg["symmetric"], cfg["real"]
+    return q
+  if kind == "qsigmoid":
+    q = Q.quantized_sigmoid(cfg["bits"] + 1, symmetric=1 - cfg["symmetric"], use_real_sigmoid=1 - cfg["real"])
+    q.bits, q.symmetric, q.use_real_sigmoid = cfg["bits"], cfg["symmetric"], cfg["real"]
+    return q
+  raise ValueError(kind)
+
+
+def build(kind, cfg):
+  """construct the real quantizer; for the mode family under the mode `ctor_mode` (restored after)"""
+  from qkeras import quantizers as Q
+  cm = cfg.get("ctor_mode")
+  try:
+    if cm is not None:
+      Q.set_internal_sigmoid(cm)
+    if cfg.get("route") == "reassign":
+      return _build_reassign(kind, cfg)
+    if cfg.get("route") == "reassign-alpha":
+      q = Q.quantized_linear(cfg["bits"], cfg["integer"], cfg["symmetric"], keep_negative=cfg["keep_negative"],
+                             alpha=cfg["ctor_alpha"])
+      q.alpha = cfg["alpha"]
+      return q
+    return _build_direct(kind, cfg)
+  finally:
+    if cm is not None:
+      Q.set_internal_sigmoid("hard")
+
+
+def caller(q, cfg):
+  """float32 array -> float32 array through the real quantizer, under the call-time mode"""
+  import tensorflow as tf
+  from qkeras import quantizers as Q
+  mode = cfg.get("mode")
+
+  def call(arr):
+    try:
+      if mode is not None:
+        Q.set_internal_sigmoid(mode)
+      return np.asarray(q(tf.constant(np.asarray(arr, dtype=np.float32))), dtype=np.float32)
+    finally:
+      if mode is not None:
+        Q.set_internal_sigmoid("hard")     # the default: later cases must not see this one's mode
+  return call
+
+
+def surrogate32(mode, xt):
+  """float32 value of the surrogate of `mode`, from the functions themselves (NOT through the
+  module-level name `_sigmoid`, whose binding is what is under test)"""
+  import tensorflow as tf
+  from qkeras import quantizers as Q
+  f = {"hard": Q.hard_sigmoid, "smooth": Q.smooth_sigmoid, "real": tf.sigmoid}[mode]
+  return f(xt)
+
+
+# --------------------------------------------------------------------------- exact references
 
 def lattice(kind, cfg):
   """(step, lo, hi, gain) of the declared format, exact; None for the 1-bit sign formats"""
@@ -143,7 +448,7 @@ def lattice(kind, cfg):
       # the updated quantizer divides by alpha * 2^(integer - ub) first: alpha is part of the step
       return step * gain, lo, 2 ** ub - 1, F(1)
     return step, lo, 2 ** ub - 1, gain
-  if kind == "qrelu":
+  if kind in ("qrelu", "qrelusig"):
     nsb = cfg["bits"] - (0 if cfg["slope_log"] is None else 1)
     if nsb < 0:
       return None
@@ -163,96 +468,340 @@ def lattice(kind, cfg):
     return F(1, m), int(cfg["symmetric"]), m - 1, F(1)
 
 
+def sigmoid_exact(mode, x):
+  """exact value of the piecewise-linear surrogates (None for the real sigmoid)"""
+  if mode == "hard":
+    return min(max(x / 2 + F(1, 2), F(0)), F(1))
+  if mode == "smooth":
+    return min(max(3 * x / 16 + F(1, 2), F(0)), F(1))
+  return None
+
+
 def surrogate_exact(kind, cfg, x):
-  """exact rational surrogate (None for the real tanh / sigmoid, which are oracle inputs)"""
+  """exact rational underlying activation (None where it is an oracle input: real tanh / sigmoid)"""
   if kind in ("qbits", "qlinear"):
     return x
   if kind == "qrelu":
-    if cfg["slope_log"] is None:
-      return max(x, F(0))
-    return x if x >= 0 else x / (2 ** cfg["slope_log"])
+    step, lo, hi, _ = lattice(kind, cfg)
+    sl = cfg["slope_log"]
+    lrelu = x if x >= 0 else (F(0) if sl is None else x / (2 ** sl))
+    ub = cfg.get("upper")
+    if cfg.get("qclip", 1):
+      # x_u = where(x <= m_i - m_f, relu(x), m_i - m_f)
+      return lrelu if x <= hi * step else hi * step
+    if ub is not None:
+      return lrelu if x <= F(ub) else F(ub)
+    return lrelu
+  if kind == "qrelusig":
+    s = sigmoid_exact(cfg.get("mode", "hard"), x / F(2) ** cfg["integer"])
+    if s is None or cfg["slope_log"] is not None:
+      return None
+    a = F(2) ** cfg["integer"] * max(2 * s - 1, F(0))
+    ub = cfg.get("upper")
+    if not cfg.get("qclip", 1) and ub is not None:
+      a = min(a, F(ub))
+    return a
   if cfg.get("real"):
     return None
-  hs = min(max(x / 2 + F(1, 2), F(0)), F(1))
-  return 2 * hs - 1 if kind == "qtanh" else hs
+  s = sigmoid_exact(cfg.get("mode", "hard"), x)
+  if s is None:
+    return None
+  return 2 * s - 1 if kind == "qtanh" else s
+
+
+def surrogate_slack(kind, cfg):
+  """float32 evaluation error of the piecewise-linear surrogates (Props.C02.C02_surrogate_error and
+  its smooth counterpart): hard = one rounding, smooth = two; tanh = 2*sigmoid-1 doubles it"""
+  if kind not in ("qtanh", "qsigmoid", "qrelusig"):
+    return F(0)
+  base = F(1, 2 ** 24) if cfg.get("mode", "hard") == "hard" else F(1, 2 ** 23)
+  if kind == "qrelusig":
+    return base * 2 * F(2) ** cfg["integer"]
+  return base * (2 if kind == "qtanh" and cfg.get("mode", "hard") != "hard" else 1)
+
+
+# --------------------------------------------------------------------------- running
+
+def _label(kind, cfg):
+  return "%s(%s)" % (kind, ",".join("%s=%s" % kv for kv in cfg.items()))
+
+
+def _wire_cfg(cfg):
+  out = {}
+  for k, v in cfg.items():
+    if k in ("alpha", "upper", "ctor_alpha"):
+      out[k] = None if v is None else core.rj(v)
+    elif k in ("alphas", "layout", "bound", "route", "ctor_mode", "mode", "real"):
+      continue
+    else:
+      out[k] = v
+  return out
+
+
+def _rats(fs):
+  return [[p.numerator, p.denominator] for p in fs]
+
+
+def _reporters(r, q, kind, cfg):
+  try:
+    r.impl_min, r.impl_max = F(float(q.min())), F(float(q.max()))
+  except Exception:  # pylint: disable=broad-except
+    r.impl_min = r.impl_max = None
+  if hasattr(q, "range") and kind in ("qbits", "qrelu", "qlinear") and cfg["bits"] <= 10:
+    try:
+      r.impl_range = fr(np.asarray(q.range(), dtype=np.float32))
+    except AssertionError:
+      r.impl_range = "assert"
+    except Exception as e:  # pylint: disable=broad-except
+      r.impl_range = "err:" + type(e).__name__
+
+
+def _collect_scalar(run, rng, kind, cfg, family, jobs, recs):
+  import tensorflow as tf
+  label = _label(kind, cfg)
+  r = Rec(kind, label, cfg)
+  r.family = family
+  lat = lattice(kind, cfg)
+  try:
+    q = build(kind, cfg)
+  except Exception as e:  # pylint: disable=broad-except
+    r.err = "ctor:" + type(e).__name__
+    run.count("ctor_error")
+    return
+  r.q = q
+  r.call = caller(q, cfg)
+  if lat is None:
+    # 1-bit sign formats: outputs +-gain (quantized_bits) resp. +-qs/2 (quantized_linear)
+    g = F(1) if cfg.get("alpha") is None else F(cfg["alpha"])
+    step, lo, hi = (g if kind == "qbits" else g * F(2) ** cfg["integer"] / 2), -1, 1
+  elif cfg.get("route") == "reassign-alpha":
+    # the inputs aim at the format the object BEHAVES as (the stored scale); the oracle judges them
+    # against the declared one
+    step, lo, hi, _ = lattice(kind, dict(cfg, alpha=cfg["ctor_alpha"]))
+  else:
+    step, lo, hi, _ = lat
+  mode = cfg.get("mode", "hard")
+  if kind in ("qtanh", "qsigmoid"):
+    # inputs whose surrogate hits every code / breakpoint: hard x = 2*p-1 (tanh: p itself),
+    # smooth x = (p - 1/2) * 16/3 (tanh: p * 8/3)
+    base = points(rng, step, lo, hi)
+    xs = [base if kind == "qtanh" else (2.0 * base - 1.0).astype(np.float32)]
+    if family == "modes":
+      xs.append((base * (8.0 / 3.0) if kind == "qtanh" else (base - 0.5) * (16.0 / 3.0)).astype(np.float32))
+      # multiples of 1/64: both piecewise-linear surrogates are exact in float32 there
+      xs.append((np.arange(-8 * 64, 8 * 64 + 1, 4, dtype=np.float32) / 64.0))
+    xs.append(np.array([-8, -4, -2.5, 2.5, 4, 8, -1, 1], dtype=np.float32))
+    xs = np.concatenate(xs)
+  elif kind == "qrelusig":
+    mi = 2.0 ** cfg["integer"]
+    # sigma(x / m_i) * m hits every integer / half-integer: x = m_i * (2 s - 1) (hard), * 8/3 (smooth)
+    m = 2 ** (cfg["bits"] - (0 if cfg["slope_log"] is None else 1))
+    s01 = points(rng, 1.0 / m, 0, m, big=False)
+    xs = [(mi * (2.0 * s01 - 1.0)).astype(np.float32), (mi * (s01 - 0.5) * (16.0 / 3.0)).astype(np.float32),
+          (mi * np.arange(-8 * 32, 8 * 32 + 1, 4, dtype=np.float32) / 32.0)]
+    if cfg["slope_log"] is not None:
+      k = 2 ** cfg["slope_log"]
+      xs.append((mi * (2.0 * s01 * k - 1.0)).astype(np.float32))
+    xs = np.concatenate(xs)
+  else:
+    extra = ()
+    ub = cfg.get("upper")
+    if ub:
+      extra = (ub, ub - float(step) / 2, ub + float(step) / 2, 2 * ub, 4 * float(hi * step) + 7, 1000.0)
+    xs = points(rng, step * (1 if lat is None else lat[3]), lo, hi, extra=extra)
+    if kind == "qrelu" and cfg["slope_log"] is not None:
+      # negative side: breakpoints of round(p*slope)
+      xs = np.concatenate([xs, -np.abs(points(rng, step * 2 ** cfg["slope_log"], 0, max(1, -lo), n_random=6, big=False))])
+  xs = distinct(xs)
+  try:
+    ys = r.call(xs)
+  except Exception as e:  # pylint: disable=broad-except
+    r.err = "call:" + type(e).__name__
+    run.count("call_error")
+    return
+  xs_eff = flush(xs)
+  r.xs, r.ys = fr(xs_eff), fr(ys)
+  r.x32 = xs
+  xt = tf.constant(xs)
+  if kind == "qtanh":
+    p = np.asarray(tf.tanh(xt) if cfg["real"] else 2.0 * surrogate32(mode, xt) - 1.0, dtype=np.float32)
+    r.ps = fr(p)
+  elif kind == "qsigmoid":
+    p = np.asarray(tf.sigmoid(xt) if cfg["real"] else surrogate32(mode, xt), dtype=np.float32)
+    r.ps = fr(p)
+  elif kind == "qrelusig":
+    mi = tf.constant(2.0 ** cfg["integer"], dtype=tf.float32)
+    r.ps = fr(np.asarray(surrogate32(mode, xt / mi), dtype=np.float32))
+  _reporters(r, q, kind, cfg)
+  line = {"op": kind, "cfg": _wire_cfg(cfg)}
+  if kind in ("qtanh", "qsigmoid", "qrelusig"):
+    line["ss" if kind == "qrelusig" else "ps"] = _rats(r.ps)
+    if not cfg.get("real") and mode != "real" and family == "modes":
+      line["mode"] = mode
+      line["xs"] = _rats(r.xs)
+  else:
+    line["xs"] = _rats(r.xs)
+
+  def done(o, r=r):
+    r.model = [core.unrj(p) for p in o["ys"]]
+    r.model_min, r.model_max = core.unrj(o["min"]), core.unrj(o["max"])
+    r.model_range = None if o.get("range") is None else [core.unrj(p) for p in o["range"]]
+    if o.get("yx") is not None:
+      r.yx = [core.unrj(p) for p in o["yx"]]
+  jobs.append((line, done))
+  recs.append(r)
+
+
+def _collect_pc(run, rng, kind, cfg, jobs, recs):
+  """one quantizer with a per-channel alpha tensor -> one Rec per channel (a scalar configuration
+  with that channel's alpha), the reporters broadcast the way numpy would compare them"""
+  base_kind = "qlinear" if kind == "qlinear_pc" else "qbits"
+  al = cfg["alphas"]
+  C = len(al)
+  label = _label(kind, cfg)
+  try:
+    q = build(kind, cfg)
+  except Exception:  # pylint: disable=broad-except
+    run.count("ctor_error")
+    return
+  chan_cfgs = [dict(bits=cfg["bits"], integer=cfg["integer"], symmetric=cfg["symmetric"],
+                    keep_negative=cfg["keep_negative"], alpha=a) for a in al]
+  lats = [lattice(base_kind, c) for c in chan_cfgs]
+  kn = int(cfg["keep_negative"])
+  ub = cfg["bits"] - kn
+  lo = (-(2 ** ub) + int(cfg["symmetric"])) if kn else 0
+  hi = 2 ** ub - 1
+  if lats[0] is None:
+    units = points(rng, 1.0, -1, 1)
+    steps = [float(F(a) * (F(2) ** cfg["integer"] / 2 if base_kind == "qlinear" else 1)) for a in al]
+  else:
+    units = points(rng, 1.0, lo, hi)
+    steps = [float(l[0] * l[3]) for l in lats]
+  units = distinct(units)
+  x = np.stack([(units * np.float32(s)).astype(np.float32) for s in steps], axis=1)   # [N, C], exact (po2)
+  col = cfg["layout"] == "col"
+  r4 = cfg["layout"] == "r4"
+  call = caller(q, cfg)
+
+  def to_impl(m):
+    return m.T if col else (m.reshape(-1, 1, 1, C) if r4 else m)
+
+  def from_impl(y):
+    return y.T if col else (y.reshape(-1, C) if r4 else y)
+
+  def call_mat(m):
+    return from_impl(call(to_impl(m)))
+  try:
+    y = call_mat(x)
+    assert y.shape == x.shape
+  except Exception as e:  # pylint: disable=broad-except
+    run.count("call_error")
+    run.count("call_error:" + kind + ":" + type(e).__name__)
+    return
+  # reporters, broadcast against the output exactly as `q.min() <= y` would
+  mins = maxs = None
+  try:
+    mn = from_impl(np.broadcast_to(np.asarray(q.min(), dtype=np.float64), to_impl(y).shape))
+    mx = from_impl(np.broadcast_to(np.asarray(q.max(), dtype=np.float64), to_impl(y).shape))
+    mins, maxs = [fr(mn[:, j]) for j in range(C)], [fr(mx[:, j]) for j in range(C)]
+  except Exception:  # pylint: disable=broad-except
+    run.count("pc_reporter_error")
+  rng_kind, R = None, None
+  if base_kind == "qlinear" and lats[0] is not None and cfg["bits"] <= 6:
+    try:
+      R = np.asarray(q.range(), dtype=np.float32)
+      rng_kind = "first" if (col and R.ndim == 2 and R.shape[0] == C) else "flat"
+    except Exception as e:  # pylint: disable=broad-except
+      rng_kind = "err:" + type(e).__name__
+  elif base_kind == "qbits":
+    try:
+      R = np.asarray(q.range(), dtype=np.float32)
+      rng_kind = "flat"
+    except Exception as e:  # pylint: disable=broad-except
+      rng_kind = "assert"
+  group = []
+  for j in range(C):
+    c = dict(chan_cfgs[j])
+    c["pc"] = "%s:%s[%d]" % (cfg["layout"], list(al), j)
+    r = Rec(base_kind, "%s channel %d" % (label, j), c)
+    r.family = "per-channel"
+    r.q = q
+    xs_j = x[:, j]
+    r.xs, r.ys, r.x32 = fr(flush(xs_j)), fr(y[:, j]), xs_j
+
+    def call_j(arr, j=j):
+      m = np.zeros((len(arr), C), dtype=np.float32)
+      m[:, j] = np.asarray(arr, dtype=np.float32)
+      return call_mat(m)[:, j]
+    r.call = call_j
+    if mins is not None:
+      # one bound per element; a scalar / per-channel reporter gives the same bound on every row
+      r.impl_min_all, r.impl_max_all = mins[j], maxs[j]
+      r.impl_min, r.impl_max = min(mins[j]), max(maxs[j])
+      if len(set(mins[j])) > 1 or len(set(maxs[j])) > 1:
+        run.disagree("minmax:per-channel-varies", {"config": r.label}, "varies along the batch axis", "constant")
+    if rng_kind == "first":
+      r.impl_range = fr(R[j])
+    elif rng_kind == "flat":
+      r.impl_range, r.range_flat = fr(R), True
+    elif rng_kind is not None:
+      r.impl_range = "assert" if rng_kind == "assert" else rng_kind
+    group.append(r)
+  if rng_kind == "flat" and C > 1:
+    # a listed value must be reachable in SOME channel: it is a fixed point of that channel
+    vals = np.asarray(R, dtype=np.float32).ravel()
+    back = call_mat(np.repeat(vals[:, None], C, axis=1))
+    seen_any = set()
+    for r in group:
+      seen_any |= set(r.ys)
+    group[0].range_unreachable = [F(float(v)) for v, b in zip(vals, back)
+                                  if not np.any(b == v) and F(float(v)) not in seen_any]
+    run.evaluations += len(vals) * C
+  line = {"op": kind, "cfg": _wire_cfg(cfg), "alphas": [core.rj(a) for a in al],
+          "rows": [_rats(fr(flush(x[i]))) for i in range(x.shape[0])]}
+
+  def done(o, group=group):
+    for j, r in enumerate(group):
+      r.model = [core.unrj(row[j]) for row in o["ys"]]
+      if "mins" in o:
+        r.model_min, r.model_max = core.unrj(o["mins"][j]), core.unrj(o["maxs"][j])
+        if r.range_flat:
+          r.model_range = None if o["range_last"] is None else [core.unrj(p) for p in o["range_last"]]
+        else:
+          r.model_range = [core.unrj(p) for p in o["range_first"][j]]
+        r.model_range_refuses = o["range_last"] is None and cfg["layout"] != "col"
+      else:
+        r.model_min, r.model_max = core.unrj(o["min"]), core.unrj(o["max"])
+        r.model_range = None
+  jobs.append((line, done))
+  recs.extend(group)
 
 
 def collect(run: core.Run, tier: str, prop: str):
   """run implementation and model on every configuration; returns list of Rec"""
   core.assert_repo_import()
-  import tensorflow as tf
   from qkeras import quantizers as Q
   rng = np.random.default_rng(run.seed)
-  cfgs = configs(tier, rng)
-  recs, lines = [], []
-  for kind, cfg in cfgs:
-    label = "%s(%s)" % (kind, ",".join("%s=%s" % kv for kv in cfg.items()))
-    r = Rec(kind, label, cfg)
-    lat = lattice(kind, cfg)
-    try:
-      q = build(kind, cfg)
-    except Exception as e:  # pylint: disable=broad-except
-      r.err = "ctor:" + type(e).__name__
-      run.count("ctor_error")
-      continue
-    r.q = q
-    if lat is None:
-      # 1-bit sign formats: outputs +-gain (quantized_bits) resp. +-qs/2 (quantized_linear)
-      g = F(1) if cfg.get("alpha") is None else F(cfg["alpha"])
-      step, lo, hi = (g if kind == "qbits" else g * F(2) ** cfg["integer"] / 2), -1, 1
+  cfgs = [(k, c, "base") for k, c in configs(tier, rng)]
+  recs, jobs = [], []
+  Q.set_internal_sigmoid("hard")
+  for kind, cfg, family in cfgs:
+    _collect_scalar(run, rng, kind, cfg, family, jobs, recs)
+  # the strengthening-round families draw from a stream of their own
+  rng2 = np.random.default_rng([run.seed, 20260930])
+  for kind, cfg in configs_extra(tier, rng2):
+    if kind.endswith("_pc"):
+      _collect_pc(run, rng2, kind, cfg, jobs, recs)
     else:
-      step, lo, hi, _ = lat
-    if kind in ("qtanh", "qsigmoid"):
-      # inputs whose hard surrogate hits every code / breakpoint: x = 2*p-1 (tanh: p itself)
-      base = points(rng, step, lo, hi)
-      xs = base if kind == "qtanh" else (2.0 * base - 1.0).astype(np.float32)
-      xs = np.concatenate([xs, np.array([-8, -4, -2.5, 2.5, 4, 8, -1, 1], dtype=np.float32)])
-    else:
-      xs = points(rng, step * (1 if lat is None else lat[3]), lo, hi)
-      if kind == "qrelu" and cfg["slope_log"] is not None:
-        # negative side: breakpoints of round(p*slope)
-        xs = np.concatenate([xs, -np.abs(points(rng, step * 2 ** cfg["slope_log"], 0, max(1, -lo), n_random=6, big=False))])
-    xs = np.unique(xs.view(np.int32)).view(np.float32)  # distinct bit patterns (keeps -0.0)
-    xt = tf.constant(xs)
-    try:
-      ys = np.asarray(q(xt), dtype=np.float32)
-    except Exception as e:  # pylint: disable=broad-except
-      r.err = "call:" + type(e).__name__
-      run.count("call_error")
-      continue
-    # TF's CPU kernels run with denormals-are-zero: a subnormal input IS zero to the real code
-    xs_eff = np.where(np.abs(xs) < np.float32(1.17549435e-38), np.float32(0.0) * np.sign(xs), xs).astype(np.float32)
-    r.xs, r.ys = fr(xs_eff), fr(ys)
-    r.x32 = xs
-    if kind == "qtanh":
-      p = np.asarray(tf.tanh(xt) if cfg["real"] else 2.0 * Q._sigmoid(xt) - 1.0, dtype=np.float32)
-      r.ps = fr(p)
-    elif kind == "qsigmoid":
-      p = np.asarray(tf.sigmoid(xt) if cfg["real"] else Q._sigmoid(xt), dtype=np.float32)
-      r.ps = fr(p)
-    try:
-      r.impl_min, r.impl_max = F(float(q.min())), F(float(q.max()))
-    except Exception as e:  # pylint: disable=broad-except
-      r.impl_min = r.impl_max = None
-    if hasattr(q, "range") and kind in ("qbits", "qrelu", "qlinear") and cfg["bits"] <= 10:
-      try:
-        r.impl_range = fr(np.asarray(q.range(), dtype=np.float32))
-      except AssertionError:
-        r.impl_range = "assert"
-      except Exception as e:  # pylint: disable=broad-except
-        r.impl_range = "err:" + type(e).__name__
-    line = {"op": kind, "cfg": {k: (core.rj(v) if k == "alpha" and v is not None else v) for k, v in cfg.items()}}
-    if kind in ("qtanh", "qsigmoid"):
-      line["ps"] = [[p.numerator, p.denominator] for p in r.ps]
-    else:
-      line["xs"] = [[x.numerator, x.denominator] for x in r.xs]
-    lines.append(line)
-    recs.append(r)
-  outs = core.run_driver(prop, lines, driver="C01")
-  for r, o in zip(recs, outs):
-    r.model = [core.unrj(p) for p in o["ys"]]
-    r.model_min, r.model_max = core.unrj(o["min"]), core.unrj(o["max"])
-    r.model_range = None if o.get("range") is None else [core.unrj(p) for p in o["range"]]
+      family = ("reassign" if cfg.get("route") in ("reassign", "reassign-alpha") else
+                "modes" if "mode" in cfg else "relu-opts")
+      _collect_scalar(run, rng2, kind, cfg, family, jobs, recs)
+  Q.set_internal_sigmoid("hard")
+  outs = core.run_driver(prop, [l for l, _ in jobs], driver="C01")
+  for (_, done), o in zip(jobs, outs):
+    done(o)
+  for r in recs:
+    run.count("family_" + r.family)
   return recs
 
 
@@ -274,9 +823,28 @@ def compare(run: core.Run, recs, with_reporters=True):
     if bad:
       run.disagree("value:" + r.kind, {"config": r.label, "n_points": len(r.xs), "n_bad": len(bad),
                                         "first": bad[:3]}, "see first", "see first")
+    if r.yx is not None:
+      # the mode-dependent model (surrogate computed from the INPUT under the call-time mode), at the
+      # points where the float32 surrogate is exact
+      mode = r.cfg.get("mode", "hard")
+      scale = F(2) ** r.cfg["integer"] if r.kind == "qrelusig" else F(1)
+      n_exact, badx = 0, []
+      for i, x in enumerate(r.xs):
+        s = sigmoid_exact(mode, x / scale)
+        sp = r.ps[i] if r.kind != "qtanh" else (r.ps[i] + 1) / 2
+        if s == sp:
+          n_exact += 1
+          if r.ys[i] != r.yx[i]:
+            badx.append((str(x), str(r.ys[i]), str(r.yx[i])))
+      run.compared += n_exact
+      run.count("mode_exact_points", n_exact)
+      if badx:
+        r.mirrored = False
+        run.disagree("value-from-input:" + r.kind, {"config": r.label, "n_bad": len(badx), "first": badx[:3]},
+                     "see first", "see first")
     if with_reporters:
       if r.impl_min is not None and (r.impl_min != r.model_min or r.impl_max != r.model_max):
-        if r.kind in ("qbits", "qrelu", "qlinear"):
+        if r.kind in ("qbits", "qrelu", "qlinear", "qrelusig"):
           run.disagree("minmax:" + r.kind, {"config": r.label}, [str(r.impl_min), str(r.impl_max)],
                        [str(r.model_min), str(r.model_max)])
       if isinstance(r.impl_range, list) and r.model_range is not None and r.impl_range != r.model_range:
@@ -286,3 +854,6 @@ def compare(run: core.Run, recs, with_reporters=True):
         run.disagree("range-assert:" + r.kind, {"config": r.label}, "AssertionError", "list")
       if isinstance(r.impl_range, list) and r.model_range is None:
         run.disagree("range-assert:" + r.kind, {"config": r.label}, "list", "assert")
+      if r.family == "per-channel" and r.kind == "qlinear" and isinstance(r.impl_range, str) \
+          and not getattr(r, "model_range_refuses", True):
+        run.disagree("range-error:" + r.kind, {"config": r.label}, r.impl_range, "list")
